@@ -3,20 +3,27 @@
 set -e
 cd "$(dirname "$0")"
 export GOFLAGS=-mod=mod GOPROXY=off GOSUMDB=off GOTOOLCHAIN=local
-mkdir -p work evidence replays harness/bin
+mkdir -p work evidence replays harness/bin coq/Generated
 cp /repo/go.sum harness/go.sum
+CLAIMED=$(python3 -c "import json;c=json.load(open('claims.json'));print(' '.join(k for k,v in c.items() if isinstance(v,dict) and v.get('claimed')))")
 # source facts (regenerated from /repo on every check as well)
 if [ -d harness/cmd/facts ]; then
   (cd harness && go build -o bin/facts ./cmd/facts && ./bin/facts /repo > ../coq/Generated/SourceFacts.v.new && \
     { cmp -s ../coq/Generated/SourceFacts.v.new ../coq/Generated/SourceFacts.v || mv ../coq/Generated/SourceFacts.v.new ../coq/Generated/SourceFacts.v; rm -f ../coq/Generated/SourceFacts.v.new; })
 fi
-# full .vo build of the Coq development
-(cd coq && sh mkproject.sh && timeout 3000 make -j16 > ../work/coq_build.log 2>&1) || { tail -50 work/coq_build.log; exit 1; }
+# full .vo build of the Coq development (every file a claimed property depends on)
+TARGETS=""
+for f in coq/Common/*.v coq/Generated/*.v; do [ -f "$f" ] && TARGETS="$TARGETS ${f#coq/}o"; done
+for p in $CLAIMED; do TARGETS="$TARGETS Properties/$p.vo Corr/$p.vo"; done
+(cd coq && sh mkproject.sh && timeout 3000 make -j16 $TARGETS > ../work/coq_build.log 2>&1) || { tail -50 work/coq_build.log; exit 1; }
 # forbidden vernacular
 if grep -rnE '\b(Admitted|admit|Axiom|Parameter|Conjecture|Admit Obligations)\b|Unset Guard|bypass_check' coq --include='*.v' | grep -v 'Print Assumptions' | grep -v '^[^:]*:[0-9]*: *(\*' ; then
   echo "forbidden vernacular found" >&2; exit 1
 fi
-# warm the Go build cache: every generator, plain; race variants for the properties that use them
-(cd harness && for d in cmd/c*; do n=$(basename $d); go build -tags verif -o bin/$n ./$d; done)
-(cd harness && for n in c03 c14 c15 c20; do [ -d cmd/$n ] && go build -race -tags verif -o bin/$n-race ./cmd/$n || true; done)
+# warm the Go build cache: every claimed generator, plain; race variants for the properties that use them
+for p in $CLAIMED; do
+  n=$(echo $p | tr 'A-Z' 'a-z')
+  (cd harness && go build -tags verif -o bin/$n ./cmd/$n)
+  if grep -q "\"$p\": dict(gens=.*True" check; then (cd harness && go build -race -tags verif -o bin/$n-race ./cmd/$n); fi
+done
 echo setup ok
